@@ -27,6 +27,7 @@ import (
 	"go/types"
 	"os"
 	"path/filepath"
+	"regexp"
 	"sort"
 	"strings"
 
@@ -43,9 +44,9 @@ var listed = []string{
 	"bitmap.NextOne", "bitmap.PrevOne", "bitmap.Slice", "bitmap.ToArray", "bitmap.Getw", "bitmap.FromStr32",
 	"bmtree.PathToIndex", "bmtree.PathToIndexLoose", "bmtree.IndexToPath", "bmtree.AllPaths", "bmtree.Decode",
 	"bitstr.Cmp", "bitstr.CmpUpto", "bitstr.StrCmpUpto",
-	"(*bitword.bitWord).FromStr", "(*bitword.bitWord).FromStrs", "(*bitword.bitWord).ToStr",
-	"(*bitword.bitWord).ToStrs", "(*bitword.bitWord).Get", "(*bitword.bitWord).FirstDiff",
-	"sigbits.FirstDiffBits", "sigbits.ShardByPrefix", "(*sigbits.SigBits).CountPrefixes",
+	"bitword.bitWord.FromStr", "bitword.bitWord.FromStrs", "bitword.bitWord.ToStr",
+	"bitword.bitWord.ToStrs", "bitword.bitWord.Get", "bitword.bitWord.FirstDiff",
+	"sigbits.FirstDiffBits", "sigbits.ShardByPrefix", "sigbits.SigBits.CountPrefixes",
 }
 
 // neighbouring query / construction functions of the same packages that users combine with the listed
@@ -66,10 +67,18 @@ var readOnlyExternal = []string{
 	"bytes.Compare", "bytes.Equal", "bytes.HasPrefix", "bytes.Index", "bytes.IndexByte",
 	"strings.", "strconv.", "math/bits.", "math.", "unicode/utf8.",
 	"fmt.Sprintf", "fmt.Sprint", "fmt.Sprintln", "fmt.Errorf",
+	"runtime.KeepAlive",
 	"github.com/openacid/must", // the contract package: (enabled|disabled).Be methods compare their arguments
 }
 
-func short(s string) string { return strings.ReplaceAll(s, modPath+"/", "") }
+// short names: module prefix stripped, methods as pkg.T.M (no parentheses or stars: the names end up in
+// Coq strings and must not look like comment openers to line-based tools)
+var recvRe = regexp.MustCompile(`\(\*?([A-Za-z0-9_./-]+)\)\.`)
+
+func short(s string) string {
+	s = strings.ReplaceAll(s, modPath+"/", "")
+	return recvRe.ReplaceAllString(s, "$1.")
+}
 
 // ---------------------------------------------------------------------------------------- roots
 
@@ -126,7 +135,9 @@ func ptrLike(t types.Type, depth int) bool {
 	}
 	switch u := t.Underlying().(type) {
 	case *types.Basic:
-		return u.Kind() == types.String || u.Kind() == types.UnsafePointer || u.Kind() == types.UntypedNil || u.Kind() == types.UntypedString
+		// uintptr counts: an address may travel through one (reflect.StringHeader.Data, pointer arithmetic)
+		return u.Kind() == types.String || u.Kind() == types.UnsafePointer || u.Kind() == types.Uintptr ||
+			u.Kind() == types.UntypedNil || u.Kind() == types.UntypedString
 	case *types.Pointer, *types.Slice, *types.Map, *types.Chan, *types.Interface, *types.Signature:
 		return true
 	case *types.Struct:
@@ -339,7 +350,12 @@ func (a *analysis) rootsOf1(v ssa.Value) rootset {
 	case *ssa.Range:
 		out.addAll(a.rootsOf(v.X))
 	case *ssa.BinOp:
-		out.add(root{k: kFresh, site: v}) // string concatenation
+		if b, ok := v.Type().Underlying().(*types.Basic); ok && b.Kind() == types.Uintptr {
+			out.addAll(a.rootsOf(v.X)) // address arithmetic
+			out.addAll(a.rootsOf(v.Y))
+		} else {
+			out.add(root{k: kFresh, site: v}) // string concatenation
+		}
 	case *ssa.UnOp:
 		switch v.Op {
 		case token.MUL:
